@@ -625,7 +625,10 @@ impl Model {
         if sh.empty_component {
             return ModelAnswer::Silent("path_starts_with_slash_or_has_empty_component", None);
         }
-        if sh.non_ascii && self.has_any_or_neg_class {
+        // (a byte that occurs in no valid UTF-8 sequence - 0xC0, 0xC1, 0xF5..=0xFF - is one unit
+        // under the byte reading and under the character reading of `?` alike, so only the
+        // other bytes >= 0x80 make the documentation ambiguous)
+        if sh.ambiguous_non_ascii && self.has_any_or_neg_class {
             return ModelAnswer::Silent("non_ascii_path_under_?_or_negated_class", None);
         }
         let base = Reading { suffix_matches_empty: false, class_matches_sep: false };
@@ -665,6 +668,8 @@ pub struct Shape {
     pub no_ext: bool,
     pub non_utf8: bool,
     pub non_ascii: bool,
+    /// some byte >= 0x80 that may be part of a valid UTF-8 sequence
+    pub ambiguous_non_ascii: bool,
     pub has_slash: bool,
     pub newline: bool,
     /// starts with `/` or contains `//`
@@ -680,6 +685,7 @@ pub fn shape_of(p: &[u8]) -> Shape {
         no_ext: !base.is_empty() && !base.contains(&b'.'),
         non_utf8: std::str::from_utf8(p).is_err(),
         non_ascii: p.iter().any(|b| *b >= 0x80),
+        ambiguous_non_ascii: p.iter().any(|b| *b >= 0x80 && !matches!(*b, 0xC0 | 0xC1 | 0xF5..=0xFF)),
         has_slash: p.contains(&b'/'),
         newline: p.contains(&b'\n'),
         empty_component: p.first() == Some(&b'/') || p.windows(2).any(|w| w == b"//"),
@@ -830,6 +836,8 @@ pub struct Stats {
     pub nontrivial: u64,
     pub hits: [[u64; 5]; 7],
     pub model_checked: u64,
+    /// ... of which on a path with never-valid UTF-8 bytes under `?` / a negated class
+    pub model_checked_invalid_bytes: u64,
     pub model_match: u64,
     pub model_silent: [u64; 4],
     pub matched_some_not_all: u64,
@@ -912,6 +920,7 @@ pub fn check_path(b: &Built, p: &[u8], sh: &Shape, st: &mut Stats, all_apis: boo
             }
             ModelAnswer::Decided(want) => {
                 st.model_checked += 1;
+                st.model_checked_invalid_bytes += u64::from(sh.non_ascii && model.has_any_or_neg_class);
                 st.model_match += u64::from(want);
                 let is = exp.contains(&i);
                 if is != want {
@@ -1038,6 +1047,7 @@ fn fold_info(b: &Built, st: &Stats, single_glob_rule: bool) -> Info {
         info.class_if(st.impl_permissive[k] > 0, IMPL_READING[k][1]);
     }
     info.class_if(st.model_checked > 0, "model_decided");
+    info.class_if(st.model_checked_invalid_bytes > 0, "model_decided_on_never_valid_utf8_bytes_under_?_or_negated_class");
     info.class_if(st.model_match > 0, "model_says_match");
     info.class_if(st.model_checked > st.model_match, "model_says_no_match");
     info.class_if(st.matched_some_not_all > 0, "matches_some_not_all");
@@ -1352,7 +1362,7 @@ pub fn gen_set(t: &mut Tape, rich: bool) -> Vec<GlobSpec> {
 
 fn gen_path_byte(t: &mut Tape, rich: bool) -> u8 {
     if rich && t.chance(1, 6) {
-        return *t.pick(&[b'B', b'z', b' ', b',', b'*', b'?', b'[', b'\\', b'\n', 0x80, 0xC3, 0xA9, 0xFF, b'{', b'!']);
+        return *t.pick(&[b'B', b'z', b' ', b',', b'*', b'?', b'[', b'\\', b'\n', 0x80, 0xC3, 0xA9, 0xFF, 0xFF, 0xFE, 0xC0, b'{', b'!']);
     }
     *t.pick(&[b'a', b'b', b'.', b'/', b'-', b'A'])
 }
@@ -1479,7 +1489,7 @@ fn gen_path_for(t: &mut Tape, g: Option<&GlobSpec>, rich: bool) -> Vec<u8> {
             }
             8 => {
                 let i = t.below(p.len() + 1);
-                let b = *t.pick(&[0x80u8, 0xFF, 0xC3, 0xA9, 0xE2]);
+                let b = *t.pick(&[0x80u8, 0xFF, 0xC3, 0xA9, 0xE2, 0xFF, 0xFE, 0xC0]);
                 p.insert(i, b);
             }
             _ => {
